@@ -649,3 +649,151 @@ Proof.
               eapply NM; [rewrite X2; apply in_or_app; right; left; reflexivity | exact MK].
         -- destruct q1; discriminate EQ.
 Qed.
+
+(* ------------------------------------------------------------------ *)
+(** * The invariant and the theorem *)
+
+Definition chkN2 (s : s04) (e : ev) : bool :=
+  match e with ENotify a (Some CDrop) => disjoint (lst_of (o_snap s) a) (lst_of (o_pend s) a) | _ => true end.
+
+Lemma chkN2_pb s e : pbN e = true -> chkN2 s e = true.
+Proof. destruct e; try reflexivity. destruct c as [[| | |]|]; try reflexivity. discriminate. Qed.
+
+Definition N2 (k : list mop) (s : st) : Prop :=
+  forall a u, In u (lst_of (o_snap (st04 (tr s))) a) -> In u (lst_of (o_pend (st04 (tr s))) a) -> ~ beh a k s u.
+
+Lemma pend_is_pendlist k s a : I2 k s -> tfresh (tr s) -> lst_of (o_pend (st04 (tr s))) a = pendlist a k s.
+Proof.
+  intros (_ & m2 & MM & JJ) T. destruct (pend_rel _ T m2 MM) as [RP _]. rewrite RP. apply (C02Proofs.o_pend _ _ _ JJ).
+Qed.
+
+Lemma snap_step a m s pre s' : handle m s = (pre, s') -> m <> MDropOwn a true ->
+  lst_of (o_snap (st04 (tr s'))) a = lst_of (o_snap (st04 (tr s))) a.
+Proof.
+  intros E NE. destruct (handle_evB _ _ _ _ E) as [(evs & TE & FE)|(e & PE & (s1 & (evs1 & T1 & F1) & (evs2 & T2 & F2)) & EV)].
+  - rewrite TE, snap_neutral by auto. reflexivity.
+  - assert (TE : tr s' = evs2 ++ e :: evs1 ++ tr s) by (rewrite T2; unfold emit; cbn [tr set_tr]; rewrite T1; reflexivity).
+    rewrite TE, snap_neutral by auto. cbn [st04]. rewrite upd04_snap.
+    destruct e; try discriminate PE; try (rewrite snap_neutral by auto; reflexivity).
+    cbn [evok] in EV. destruct (_ && _); [|rewrite snap_neutral by auto; reflexivity].
+    rewrite lst_nset. destruct (N.eqb a0 a) eqn:Q; [apply N.eqb_eq in Q; subst; contradiction | rewrite snap_neutral by auto; reflexivity].
+Qed.
+
+Lemma disjoint_intro a b : (forall x, In x a -> ~ In x b) -> disjoint a b = true.
+Proof.
+  intros H. unfold disjoint. apply forallb_forall. intros x Hx. apply negb_true_iff.
+  destruct (nmem x b) eqn:M; auto. apply C04B2.nmem_In in M. exfalso. eapply H; eauto.
+Qed.
+
+Theorem step_N2 m k0 s pre s' :
+  IB (m :: k0) s -> IB (pre ++ k0) s' -> tfresh (tr s) -> Z.of_nat (length (tr s)) < CMAX - 1 ->
+  handle m s = (pre, s') -> N2 (m :: k0) s -> N2 (pre ++ k0) s'.
+Proof.
+  intros IBO IBN TF LEN E NN a u H1 H2 BH.
+  destruct IBO as ((SH & T & W & KK & LN & II & OO & F & MM & _) & _).
+  destruct IBN as ((_ & _ & _ & _ & LN' & _) & _).
+  pose proof T as T'. apply Tags_split in T' as [QT _].
+  pose proof (OI_prem _ _ _ (proj1 KK) OO LEN) as [SR HB LIM].
+  assert (D : (exists lg, m = MDropOwn a lg) \/ forall lg, m <> MDropOwn a lg).
+  { destruct m; try (right; intros ? Q; discriminate Q). destruct (N.eq_dec a0 a) as [->|NE]; [left; eauto | right; intros lg Q; inversion Q; congruence]. }
+  destruct D as [(lg & ->)|D].
+  - (* an owner drop of a: no deferred terminate of a is pending, the one queued now is last *)
+    cbn [handle] in E.
+    assert (B : 0 < ctr (HO a) s < CMAX).
+    { pose proof (HB a) as HA. cbn [hmop] in HA. rewrite hind_refl in HA. pose proof (hst_nn (HO a) s). pose proof (LIM a).
+      pose proof (hind_range (HO a) (HR a)). lia. }
+    assert (NOM : ~ mk a (MDropOwn a lg :: k0) s).
+    { intros MK. destruct (MM a MK) as (Z & _). lia. }
+    destruct BH as [(k1 & mk0 & k2 & EK & MK & _)|(q1 & c & q2 & EQ & CK & TK)].
+    + apply app_split in EK as [(p2 & EP & _)|(c' & _ & E0)].
+      * assert (INP : In mk0 pre) by (rewrite EP; apply in_or_app; right; left; reflexivity).
+        assert (EH : handle (MDropOwn a lg) s = (pre, s')) by exact E.
+        destruct (handle_marks a _ _ _ _ (proj1 KK) QT F EH mk0 INP MK) as [MB|((t & [Q|Q]) & _)]; [destruct MB | discriminate Q | discriminate Q].
+      * apply NOM. left. exists mk0. split; [right; rewrite E0; apply in_or_app; right; left; reflexivity | exact MK].
+    + destruct (drop_own_add _ _ _ _ _ E) as [A|A].
+      * apply NOM. right. exists c. split; [rewrite <- A, EQ; apply in_or_app; right; left; reflexivity | exact CK].
+      * rewrite A in EQ. apply app_split in EQ as [(p2 & EP & _)|(c' & _ & E0)].
+        -- apply NOM. right. exists c. split; [rewrite EP; apply in_or_app; right; left; reflexivity | exact CK].
+        -- destruct c' as [|x c']; inversion E0 as [[X1 X2]]; [subst q2; destruct TK | destruct c'; discriminate].
+  - (* the snapshot of a is unchanged *)
+    rewrite (snap_step a _ _ _ _ E (D true)) in H1.
+    assert (LOC : 1 <= LinStep.cnt (RClo u) (pre ++ k0) s') by (eapply beh_loc; eauto).
+    destruct (snap_pend_or_done _ _ _ H1) as [P|P].
+    + rewrite (pend_is_pendlist _ _ a II TF) in P.
+      assert (OLD : ~ beh a (m :: k0) s u) by (apply NN; [exact H1 | rewrite (pend_is_pendlist _ _ a II TF); exact P]).
+      apply OLD. destruct (batchop m) eqn:BO.
+      * eapply beh_batch; eauto.
+      * eapply beh_step; eauto. apply KK.
+    + pose proof (handle_ext _ _ _ _ E) as [evs EX].
+      assert (P' : 0 < conT (RClo u) (tr s')) by (rewrite EX; apply conT_pos_app; exact P).
+      pose proof (Lin_uid_consumed _ _ u LN' P'). lia.
+Qed.
+
+Definition INV (k : list mop) (s : st) : Prop := IB k s /\ tfresh (tr s) /\ N2 k s /\ okx chkN2 (tr s) = true.
+
+Lemma INV_init p : INV (map MTop p ++ [MEpilogue]) (init DGlobal).
+Proof.
+  split; [apply IB_init|]. split; [exact I|]. split; [|reflexivity]. intros a u H. destruct H.
+Qed.
+
+Theorem step_INV k s k' s' :
+  Z.of_nat (length (tr s)) < CMAX - 1 -> INV k s -> step k s = Some (k', s') -> INV k' s'.
+Proof.
+  intros LEN (IBO & TF & NN & OK) ST.
+  pose proof (step_IB _ _ _ _ LEN IBO ST) as IBN.
+  assert (W : WF k s) by (destruct IBO as ((_ & _ & W & _) & _); exact W).
+  pose proof (step_tfresh _ _ _ _ W TF ST) as TF'.
+  destruct k as [|m k0]; [discriminate|]. simpl in ST. destruct (handle m s) as [pre s1] eqn:E. inversion ST; subst.
+  split; [exact IBN|]. split; [exact TF'|]. split; [eapply step_N2; eauto|].
+  destruct (handle_evN _ _ _ _ E) as [EV|(a & (rid & inner & ->) & EV)].
+  - rewrite (okx_evs_in chkN2 pbN _ _ chkN2_pb EV). exact OK.
+  - rewrite (okx_evs_in chkN2 pbN _ _ chkN2_pb EV). unfold emit. cbn [tr set_tr okx chkN2]. rewrite OK, andb_true_r.
+    apply disjoint_intro. intros u H1 H2.
+    destruct IBO as ((_ & _ & _ & KK & _ & II & _) & _).
+    apply (NN a u H1 H2). rewrite (pend_is_pendlist _ _ a II TF) in H2.
+    unfold pendlist in H2. rewrite kru_cons in H2. cbn [mru app] in H2.
+    assert (HE : held_a s a = []).
+    { destruct KK as [_ MK]. inversion MK as [|? ? M0' _]; subst. simpl in M0'.
+      destruct (M0' a eq_refl) as (x & AX & ZX). unfold held_a, held_of. rewrite AX, ZX. reflexivity. }
+    rewrite HE in H2. cbn [qru flat_map app] in H2.
+    left. eexists [], _, k0. split; [reflexivity|]. split; [simpl; reflexivity|].
+    apply in_app_or in H2 as [H2|H2]; [left | right]; exact H2.
+Qed.
+
+Lemma run_INV fuel : forall k s t,
+  INV k s -> run fuel k s = Done t -> Z.of_nat (length t) < CMAX - 1 -> okx chkN2 (rev t) = true.
+Proof.
+  induction fuel as [|f IH]; intros k s t I H LEN; simpl in H.
+  - destruct k; [|discriminate]. inversion H; subst. rewrite rev_involutive. apply I.
+  - destruct (step k s) as [[k' s']|] eqn:ST.
+    + eapply IH; [|exact H | exact LEN]. eapply step_INV; [|exact I | exact ST].
+      pose proof (run_len _ _ _ _ H) as L1. pose proof (ext_len _ _ (step_ext _ _ _ _ ST)). lia.
+    + inversion H; subst. rewrite rev_involutive. apply I.
+Qed.
+
+(** The termination takes the drop's place in the main queue: when an actor is notified Dropped, every call to it that
+    was pending when its last visible owner went has been processed (started or discarded). *)
+Theorem C04_drop_takes_queue_place_proved : forall (p : list top) (fuel : nat) (t : list ev),
+  exec DGlobal fuel p = Done t -> Z.of_nat (length t) < CMAX - 1 -> okx chkN2 (rev t) = true.
+Proof. intros p fuel t H LEN. unfold exec in H. eapply run_INV; [apply INV_init | exact H | exact LEN]. Qed.
+
+(* the whole Notify-Dropped check *)
+Lemma okx_and f g t : okx (fun s e => f s e && g s e) t = okx f t && okx g t.
+Proof.
+  induction t as [|e r IH]; [reflexivity|]. cbn [okx]. rewrite IH.
+  destruct (f (st04 r) e), (g (st04 r) e), (okx f r), (okx g r); reflexivity.
+Qed.
+
+Lemma chkN_split t : okx chkN t = okx chkN1 t && okx chkN2 t.
+Proof.
+  rewrite <- okx_and. induction t as [|e r IH]; [reflexivity|]. cbn [okx]. rewrite IH. f_equal.
+  destruct e; try reflexivity. destruct c as [[| | |]|]; reflexivity.
+Qed.
+
+Theorem C04_notify_check_proved : forall (p : list top) (fuel : nat) (t : list ev),
+  exec DGlobal fuel p = Done t -> Z.of_nat (length t) < CMAX - 1 -> okx chkN (rev t) = true.
+Proof.
+  intros p fuel t H LEN. rewrite chkN_split, (C04_never_while_owned_proved p fuel t H LEN), (C04_drop_takes_queue_place_proved p fuel t H LEN). reflexivity.
+Qed.
+
+Print Assumptions C04_notify_check_proved.
